@@ -60,7 +60,10 @@ func qname(n xml.Name) string {
 }
 
 // rawTokens: normalised RawToken stream (blank text dropped, other text trimmed).
-func rawTokens(b []byte) ([]Tok, error) {
+func rawTokens(b []byte) ([]Tok, error) { return rawTokensTrim(b, "\t\r\n ") }
+
+// rawTokensTrim: the same with another cut set for the edges of text (keep-spaces leaves blanks in place).
+func rawTokensTrim(b []byte, cut string) ([]Tok, error) {
 	d := xml.NewDecoder(bytes.NewReader(b))
 	var out []Tok
 	for {
@@ -81,7 +84,7 @@ func rawTokens(b []byte) ([]Tok, error) {
 		case xml.EndElement:
 			out = append(out, Tok{Kind: "E", Name: qname(tt.Name)})
 		case xml.CharData:
-			s := strings.Trim(string(tt), "\t\r\n ")
+			s := strings.Trim(string(tt), cut)
 			if s != "" {
 				// adjacent character data tokens (text + CDATA) are one text run
 				if n := len(out); n > 0 && out[n-1].Kind == "T" {
